@@ -69,9 +69,10 @@ pub fn check(scn: &Scenario, stats: &mut Stats) -> Vec<Violation> {
         }
         let o = lint::run(&spec);
         stats.inc("t1_incarnations");
+        stats.signatures.insert(crate::rng::mix(&[wh, crate::rng::hash_str(&format!("{:?}", o.sig))]));
         if let Some(site) = o.panic.as_ref().and_then(|p| p.budget_site.clone()) {
             if site.ends_with("sweep") {
-                out.push(viol("sweeps-bounded", format!("does-not-converge:{site}"), format!("entropy {e}: the {site} loop passed the hard cap of 64*nodes+1000 sweeps: the analysis oscillates instead of reaching a fixed point"), &feats));
+                out.push(viol("sweeps-bounded", format!("does-not-converge:{site}"), format!("entropy {e}: the {site} loop passed the hard cap of 16*nodes+128 sweeps: the analysis oscillates instead of reaching a fixed point"), &feats));
                 return out;
             }
         }
